@@ -54,6 +54,10 @@ class Budget(EngineSignal):
     """Exploration budget exhausted (paths or wall time)."""
 
 
+class Stop(EngineSignal):
+    """Stop exploring (e.g. a violation was reproduced; nothing more to learn from this job)."""
+
+
 CUR = None  # the engine executing right now
 
 
@@ -1350,6 +1354,8 @@ class Engine:
                 CUR = self
                 try:
                     on_path(pr)
+                except Stop:
+                    return results
                 finally:
                     CUR = prev
             else:
